@@ -342,6 +342,11 @@ def run_property(prop, mod, tier, seed):
             os.remove(os.path.join(VERIF, "replays", fn))
     rng = random.Random("%s/%s/%s" % (seed, prop, tier))
     units = mod.plan(tier, seed, rng)
+    flt = os.environ.get("VERIF_FILTER")       # development aid: restrict to instances / configurations matching a regex
+    if flt:
+        for u in units:
+            u.cases = [c for c in u.cases if re.search(flt, c.id + "@" + u.config.name)]
+        units = [u for u in units if u.cases]
     lookup = dict(cases={}, configs={}, headers={}, prelude={}, mode={})
     for u in units:
         lookup["configs"][u.config.name] = u.config
